@@ -8,6 +8,8 @@ import (
 
 func init() { register("C04", runC04) }
 
+var c04Stuck int
+
 type c04Pkt struct {
 	Rel bool
 	Msg inMsg
@@ -53,10 +55,21 @@ func c04Run(handler bool, pkts []c04Pkt) ([]string, []string, error) {
 	}
 	s.conn.send(stream)
 	s.conn.finish()
-	if !s.waitDone(5 * time.Second) {
-		return nil, nil, fmt.Errorf("reader did not finish")
+	limit := 8 * time.Second
+	if c04Stuck >= 3 {
+		limit = 100 * time.Millisecond // the verdict is a violation already: do not wait long for the rest
+	}
+	stuck := !s.waitDone(limit)
+	if stuck {
+		c04Stuck++
 	}
 	var coq, desc []string
+	if stuck {
+		// the reader goroutine did not reach the end of the stream: an observation that can never match
+		coq = append(coq, fmt.Sprintf("WPubComp %d", 99998))
+		desc = append(desc, "reader-stuck(did not finish the stream within 8s)")
+		s.conn.Close()
+	}
 	for _, e := range s.snapshot() {
 		switch e.Kind {
 		case "hand":
@@ -117,6 +130,9 @@ func runC04(cfg *runCfg) error {
 	nontrivial := 0
 	kinds := map[string]int{}
 	add := func(handler bool, pkts []c04Pkt) error {
+		if c04Stuck >= 25 {
+			return nil // the reader got stuck in 25 scenarios: the verdict is settled, skip the rest
+		}
 		coq, desc, err := c04Run(handler, pkts)
 		if err != nil {
 			return err
